@@ -105,7 +105,7 @@ def _shc(t):
         return repr(t)[:90]
 
 
-def run(rep, tier):
+def run(rep, tier, parts=("interp", "api", "jit")):
     cx = Ctx(rep, "std")
     F = cx.F
     im = imodel.InterpModel(cx)
@@ -232,94 +232,97 @@ def run(rep, tier):
     rep.ob(rf, "loop-head", nwr >= 1 and not bad, "writes to the frame array before the opcode dispatch",
            expected="stacks[idx].stack_usage := usage_table[pc] under idx < %d" % depth, found=sorted(set(bad)) or "%d guarded writes to slot idx" % nwr)
 
-    # R07.g the registered calculator is the one whose frame sizes are used
-    rg = rep.rule("R07.g", "frame sizes come from the registered stack-usage calculator: registering stores it (and re-validates a loaded program with it); loading a program validates with the stored one", floor=3)
-    import props.c10 as c10
-    for path in ("EbpfVmMbuff::set_stack_usage_calculator", "EbpfVmMbuff::set_program"):
-        fn = F.fns.get(path)
-        if not fn:
-            rep.ob(rg, path, False, "%s exists" % path, found="missing")
-            continue
-        ev = symex.Evaluator(F, opaque_calls=lambda p: p.endswith("stack_validate"))
-        extra = [ev.sym_for("new_" + (q["pat"]["name"] if q["pat"] and q["pat"]["k"] == "bind" else "arg%d" % i), q["ty"])
-                 for i, q in enumerate(fn["thir"]["params"][1:])]
-        key, sv, outs = c10.run_method(ev, F, path, extra)
-        base = c10.flat(sv)
-        probs, n_ok = [], 0
-        for v, st in outs:
-            if c10.result_kind(v) != "Ok":
+    if "api" in parts:
+        # R07.g the registered calculator is the one whose frame sizes are used
+        rg = rep.rule("R07.g", "frame sizes come from the registered stack-usage calculator: registering stores it (and re-validates a loaded program with it); loading a program validates with the stored one", floor=3)
+        import props.c10 as c10
+        for path in ("EbpfVmMbuff::set_stack_usage_calculator", "EbpfVmMbuff::set_program"):
+            fn = F.fns.get(path)
+            if not fn:
+                rep.ob(rg, path, False, "%s exists" % path, found="missing")
                 continue
-            n_ok += 1
-            cur = c10.flat(st.env.get(key))
-            vals = [e for e in st.effects if e[0] == "call" and isinstance(e[1], str) and e[1].endswith("stack_validate")]
-            su = cur.get("stack_usage")
-            if path.endswith("set_stack_usage_calculator"):
-                if cur.get("stack_verifier.calculator") != symex.some(extra[0]) or cur.get("stack_verifier.data") != symex.some(extra[1]):
-                    probs.append("an Ok path does not store the new calculator and its data")
-                loaded = any(isinstance(c, tuple) and c[0] == "call" and c[1] == "is_Some" and "self.prog" in repr(c) for c in st.conds)
-                if loaded:
-                    recv_local = len(vals) == 1 and vals[0][2][0][0] == "ref" and vals[0][2][0][1][0] == "pv"
-                    if not (recv_local and "self.prog" in repr(vals[0][2][1]) and su != base.get("stack_usage") and "stack_validat" in repr(su)):
-                        probs.append("a loaded program is not re-validated with the new calculator")
-            else:
-                recv_field = len(vals) == 1 and "'stack_verifier'" in repr(vals[0][2][0]) and vals[0][2][1] == extra[0]
-                if not (recv_field and su != base.get("stack_usage") and "stack_validat" in repr(su)):
-                    probs.append("the new program's frame sizes are not computed by the stored stack verifier")
-        rep.ob(rg, path, n_ok >= 1 and not probs, "%s: Ok paths" % path,
-               expected="calculator stored / used on every Ok path", found=sorted(set(probs)) or "%d Ok paths" % n_ok)
-    wrappers = [k + "::set_stack_usage_calculator" for k in ("EbpfVmFixedMbuff", "EbpfVmRaw", "EbpfVmNoData")]
-    deleg = []
-    for w in wrappers:
-        fnw = F.fns.get(w)
-        calls = [callee_path(n) for n in walk(fnw["thir"]["body"]) if n.get("k") == "call"] if fnw else []
-        deleg.append(any((c or "").endswith("::set_stack_usage_calculator") for c in calls))
-    rep.ob(rg, "wrappers", all(deleg) and len(deleg) == 3, "the other VM kinds delegate set_stack_usage_calculator", expected=[True] * 3, found=deleg)
+            ev = symex.Evaluator(F, opaque_calls=lambda p: p.endswith("stack_validate"))
+            extra = [ev.sym_for("new_" + (q["pat"]["name"] if q["pat"] and q["pat"]["k"] == "bind" else "arg%d" % i), q["ty"])
+                     for i, q in enumerate(fn["thir"]["params"][1:])]
+            key, sv, outs = c10.run_method(ev, F, path, extra)
+            base = c10.flat(sv)
+            probs, n_ok = [], 0
+            for v, st in outs:
+                if c10.result_kind(v) != "Ok":
+                    continue
+                n_ok += 1
+                cur = c10.flat(st.env.get(key))
+                vals = [e for e in st.effects if e[0] == "call" and isinstance(e[1], str) and e[1].endswith("stack_validate")]
+                su = cur.get("stack_usage")
+                if path.endswith("set_stack_usage_calculator"):
+                    if cur.get("stack_verifier.calculator") != symex.some(extra[0]) or cur.get("stack_verifier.data") != symex.some(extra[1]):
+                        probs.append("an Ok path does not store the new calculator and its data")
+                    loaded = any(isinstance(c, tuple) and c[0] == "call" and c[1] == "is_Some" and "self.prog" in repr(c) for c in st.conds)
+                    if loaded:
+                        recv_local = len(vals) == 1 and vals[0][2][0][0] == "ref" and vals[0][2][0][1][0] == "pv"
+                        if not (recv_local and "self.prog" in repr(vals[0][2][1]) and su != base.get("stack_usage") and "stack_validat" in repr(su)):
+                            probs.append("a loaded program is not re-validated with the new calculator")
+                else:
+                    recv_field = len(vals) == 1 and "'stack_verifier'" in repr(vals[0][2][0]) and vals[0][2][1] == extra[0]
+                    if not (recv_field and su != base.get("stack_usage") and "stack_validat" in repr(su)):
+                        probs.append("the new program's frame sizes are not computed by the stored stack verifier")
+            rep.ob(rg, path, n_ok >= 1 and not probs, "%s: Ok paths" % path,
+                   expected="calculator stored / used on every Ok path", found=sorted(set(probs)) or "%d Ok paths" % n_ok)
+        wrappers = [k + "::set_stack_usage_calculator" for k in ("EbpfVmFixedMbuff", "EbpfVmRaw", "EbpfVmNoData")]
+        deleg = []
+        for w in wrappers:
+            fnw = F.fns.get(w)
+            calls = [callee_path(n) for n in walk(fnw["thir"]["body"]) if n.get("k") == "call"] if fnw else []
+            deleg.append(any((c or "").endswith("::set_stack_usage_calculator") for c in calls))
+        rep.ob(rg, "wrappers", all(deleg) and len(deleg) == 3, "the other VM kinds delegate set_stack_usage_calculator", expected=[True] * 3, found=deleg)
 
-    # R07.h the frame-size table gets an entry for the target of every local call
-    rh = rep.rule("R07.h", "stack-usage pass: for every instruction with opc == CALL && src == 1 the calculator is asked about, and the table receives an entry for, pc + 1 + sext(imm) (full width, either direction); no other instruction adds entries", floor=1)
-    okh, foundh = _usage_pass(F)
-    rep.ob(rh, "stack_validate", okh, "loop body of the stack-usage pass", expected="insert(pc + 1 + sext64(imm), calculator(prog, pc + 1 + sext64(imm))) exactly under opc == 0x85 && src == 1",
-           found=foundh)
+        # R07.h the frame-size table gets an entry for the target of every local call
+        rh = rep.rule("R07.h", "stack-usage pass: for every instruction with opc == CALL && src == 1 the calculator is asked about, and the table receives an entry for, pc + 1 + sext(imm) (full width, either direction); no other instruction adds entries", floor=1)
+        okh, foundh = _usage_pass(F)
+        rep.ob(rh, "stack_validate", okh, "loop body of the stack-usage pass", expected="insert(pc + 1 + sext64(imm), calculator(prog, pc + 1 + sext64(imm))) exactly under opc == 0x85 && src == 1",
+               found=foundh)
 
-    # R07.d discriminator agreement
-    rd = rep.rule("R07.d", "is-a-local-call discriminator (opc == CALL && src == 1) agrees in verifier, interpreter, JIT and stack-usage pass", floor=4)
-    vm = vmodel.VerifierModel(cx)
-    vsrc = sorted({T.show(a) for atoms, _ in vm.per_opcode(CALL)["accept"] for a in atoms if "src" in T.show(a) and "eq" in T.show(a)})
-    rep.ob(rd, "verifier", vsrc == ["eq8(0, src)", "eq8(1, src)"], "verifier call kinds", expected=["eq8(0, src)", "eq8(1, src)"], found=vsrc)
-    rep.ob(rd, "interpreter", bool(callp) and all(src1 in p["conds"] for p in callp), "interpreter local-call paths require src == 1", expected=True, found=len(callp))
-    jl = [t for t in jm.templates(CALL, 0, 1) if not t["err"]]
-    jl_other = [t for t in jm.templates(CALL, 0, 2)]
-    rep.ob(rd, "jit", len(jl) == 1 and all(t["err"] == "Err" for t in jl_other), "JIT: src == 1 emits a native call, src >= 2 is an error",
-           expected="1 template / Err", found=(len(jl), [t["err"] for t in jl_other]))
-    sv = [p for p in F.fns if p.endswith("::stack_validate")]
-    okd = False
-    if len(sv) == 1:
-        for n in walk(F.fns[sv[0]]["thir"]["body"]):
-            if n.get("k") == "if":
-                c = repr(n["c"])
-                if "'opc'" in c and "ebpf::CALL" in c:
-                    okd = "'src'" in c and "'v': 1" in c
-    rep.ob(rd, "stack-usage", okd, "stack-usage pass classifies local calls", expected="insn.opc == CALL && insn.src == 1", found=okd)
+        # R07.d discriminator agreement
+        rd = rep.rule("R07.d", "is-a-local-call discriminator (opc == CALL && src == 1) agrees in verifier, interpreter, JIT and stack-usage pass", floor=4)
+        vm = vmodel.VerifierModel(cx)
+        vsrc = sorted({T.show(a) for atoms, _ in vm.per_opcode(CALL)["accept"] for a in atoms if "src" in T.show(a) and "eq" in T.show(a)})
+        rep.ob(rd, "verifier", vsrc == ["eq8(0, src)", "eq8(1, src)"], "verifier call kinds", expected=["eq8(0, src)", "eq8(1, src)"], found=vsrc)
+        rep.ob(rd, "interpreter", bool(callp) and all(src1 in p["conds"] for p in callp), "interpreter local-call paths require src == 1", expected=True, found=len(callp))
+        jl = [t for t in jm.templates(CALL, 0, 1) if not t["err"]]
+        jl_other = [t for t in jm.templates(CALL, 0, 2)]
+        rep.ob(rd, "jit", len(jl) == 1 and all(t["err"] == "Err" for t in jl_other), "JIT: src == 1 emits a native call, src >= 2 is an error",
+               expected="1 template / Err", found=(len(jl), [t["err"] for t in jl_other]))
+        sv = [p for p in F.fns if p.endswith("::stack_validate")]
+        okd = False
+        if len(sv) == 1:
+            for n in walk(F.fns[sv[0]]["thir"]["body"]):
+                if n.get("k") == "if":
+                    c = repr(n["c"])
+                    if "'opc'" in c and "ebpf::CALL" in c:
+                        okd = "'src'" in c and "'v': 1" in c
+        rep.ob(rd, "stack-usage", okd, "stack-usage pass classifies local calls", expected="insn.opc == CALL && insn.src == 1", found=okd)
 
-    # R07.e JIT native call sequence
-    re_ = rep.rule("R07.e", "JIT local call: pushes/pops mirror around the native call, r6-r9 saved; frame pointer lowered for the callee", floor=2)
-    if len(jl) == 1:
-        ins = X.decode(jl[0]["items"])
-        pushes = [i.reg for i in ins if i.mn == "push"]
-        pops = [i.reg for i in ins if i.mn == "pop"]
-        calls = [i for i in ins if i.mn == "call_rel"]
-        mirror = pops == list(reversed(pushes)) and len(calls) == 1 and set(pushes) >= {jm.regmap[k] for k in (6, 7, 8, 9)}
-        tgt = calls[0].tag[1] if calls and calls[0].tag else None
-        rep.ob(re_, "mirror", mirror and tgt == T.op("add", 64, T.op("add", 64, ("v", "pc", 64), T.K(64, 1)), T.sext(64, ("v", "imm", 32))),
-               "x86 local-call template", expected="push r6..r9(+r10 scratch); call pc+1+imm; pops in reverse", found={"pushes": pushes, "pops": pops, "target": T.show(tgt) if tgt else None})
-        ms = X.run(ins, jm.initial_machine())
-        ev = [e for m in ms for e in m.events if e[0] == "local_call"]
-        lowered = False
-        if ev:
-            regs_at_call = ev[0][5]
-            fp = regs_at_call[jm.regmap[10]]
-            lowered = fp != jm.initial_machine().regs[jm.regmap[10]]
-        rep.ob(re_, "jit/frame-pointer", lowered, "eBPF r10 seen by the callee of a JIT-compiled local call",
-               expected="lower than the caller's by the caller's frame size", found="unchanged: callee and caller stack slots alias")
+    if "jit" in parts:
+        # R07.e JIT native call sequence
+        re_ = rep.rule("R07.e", "JIT local call: pushes/pops mirror around the native call, r6-r9 saved; frame pointer lowered for the callee", floor=2)
+        jl = [t for t in jm.templates(CALL, 0, 1) if not t["err"]]
+        if len(jl) == 1:
+            ins = X.decode_lenient(jl[0]["items"])
+            pushes = [i.reg for i in ins if i.mn == "push"]
+            pops = [i.reg for i in ins if i.mn == "pop"]
+            calls = [i for i in ins if i.mn == "call_rel"]
+            mirror = pops == list(reversed(pushes)) and len(calls) == 1 and set(pushes) >= {jm.regmap[k] for k in (6, 7, 8, 9)}
+            tgt = calls[0].tag[1] if calls and calls[0].tag else None
+            rep.ob(re_, "mirror", mirror and tgt == T.op("add", 64, T.op("add", 64, ("v", "pc", 64), T.K(64, 1)), T.sext(64, ("v", "imm", 32))),
+                   "x86 local-call template", expected="push r6..r9(+r10 scratch); call pc+1+imm; pops in reverse", found={"pushes": pushes, "pops": pops, "target": T.show(tgt) if tgt else None})
+            ms = X.run_lenient(ins, jm.initial_machine())
+            ev = [e for m in ms for e in m.events if e[0] == "local_call"]
+            lowered = False
+            if ev:
+                regs_at_call = ev[0][5]
+                fp = regs_at_call[jm.regmap[10]]
+                lowered = fp != jm.initial_machine().regs[jm.regmap[10]]
+            rep.ob(re_, "jit/frame-pointer", lowered, "eBPF r10 seen by the callee of a JIT-compiled local call",
+                   expected="lower than the caller's by the caller's frame size", found="unchanged: callee and caller stack slots alias")
     rep.trust("rustc front end / typed THIR", "x86model.py", "slice copy_from_slice / range indexing semantics")
     rep.assume("behaviour past the native stack in the JIT (depth > 8) is outside the JIT's documented guarantees")
